@@ -101,8 +101,14 @@ ItSkip(rem, a)    == SubSeq(rem, a + 1, Len(rem))                               
 ItStepBy(rem, b)  == [c \in 1..((Len(rem) + b - 1) \div b) |-> rem[(c - 1) * b + 1]]   \* step_by(b).collect(), b >= 1
 ItLast(rem)       == IF rem = << >> THEN << >> ELSE << rem[Len(rem)] >>
 ItRev(rem)        == [c \in 1..Len(rem) |-> rem[Len(rem) + 1 - c]]
+\* clone-and-continue (round 5): channels() and channels_ref() are Clone.  A clone IS an iterator over the very same
+\* remaining items -- it continues where the original stands, it does not start over --, and draining the clone leaves
+\* the original where it was.  cycle() (std: keeps a clone of the iterator it is given and re-clones it whenever the
+\* running copy is exhausted) therefore repeats `rem`, not the whole frame; cycling an exhausted iterator yields nothing.
+ItCycle(rem, j)   == IF rem = << >> THEN << >> ELSE [c \in 1..j |-> rem[((c - 1) % Len(rem)) + 1]]   \* cycle().take(j)
 ItFwdOps  == {"nth", "skip", "step_by", "last", "count", "collect"}
 ItBackOps == {"rev", "nth_back"}
+ItCloneOps == {"clone", "cycle"}                                               \* channels(), channels_ref() (ChannelsMut is not Clone)
 \* one call: the items it yields; for the calls that borrow the iterator (`alive`), what is left in it; count()'s answer
 ItOp(op, j, rem) ==
   CASE op = "nth"      -> [items |-> ItNth(rem, j).items,     rem |-> ItNth(rem, j).rem,     alive |-> TRUE,  cnt |-> -1]
@@ -113,6 +119,9 @@ ItOp(op, j, rem) ==
     [] op = "count"    -> [items |-> << >>,                   rem |-> << >>,                 alive |-> FALSE, cnt |-> Len(rem)]
     [] op = "collect"  -> [items |-> rem,                     rem |-> << >>,                 alive |-> FALSE, cnt |-> -1]
     [] op = "rev"      -> [items |-> ItRev(rem),              rem |-> << >>,                 alive |-> FALSE, cnt |-> -1]
+    \* clone: `items` = what the CLONE yields when drained, `rem` = what the original still holds afterwards
+    [] op = "clone"    -> [items |-> rem,                     rem |-> rem,                   alive |-> TRUE,  cnt |-> -1]
+    [] op = "cycle"    -> [items |-> ItCycle(rem, j),         rem |-> << >>,                 alive |-> FALSE, cnt |-> -1]
 
 ---------------------------------------------------------------------------
 (* value sets used by MC_Frame / stimuli: boundary structured, per format *)
